@@ -153,11 +153,24 @@ def Prog.tangentsFrom (env seed : Nat → R) : Prog R → List R → List R → 
 def Prog.tangents (env seed : Nat → R) (p : Prog R) : List R :=
   (Prog.tangentsFrom env seed p [] []).2
 
+/-- values and derivatives with respect to *nodes*: every instruction `k` (input or intermediate
+    result) is perturbed additively by `nseed k`; variables have no other seed -/
+def Prog.nodeTangentsFrom (env nseed : Nat → R) : Prog R → List R → List R → List R × List R
+  | [], vs, ts => (vs, ts)
+  | ins :: rest, vs, ts =>
+    Prog.nodeTangentsFrom env nseed rest (vs ++ [ins.val env vs])
+      (ts ++ [ins.tan (fun _ => 0) vs ts + nseed vs.length])
+
 /-- the direction of input `i` -/
 def unitSeed (i : Nat) : Nat → R := fun j => if j = i then 1 else 0
 
 /-- `∂(instruction k)/∂(input i)` for every `k` -/
 def Prog.grad (env : Nat → R) (p : Prog R) (i : Nat) : List R := Prog.tangents env (unitSeed i) p
+
+/-- `∂(instruction k)/∂(node m)` for every `k`: the derivative of the later results when the
+    result of instruction `m` — an input or an intermediate step — is varied on its own -/
+def Prog.gradNode (env : Nat → R) (p : Prog R) (m : Nat) : List R :=
+  (Prog.nodeTangentsFrom env (unitSeed m) p [] []).2
 
 end
 
